@@ -337,7 +337,7 @@ def run(chk, tier):
     from ..rules import initform as _IF
     _IF.check(chk, db, ['_optional/', '_variant/', '_expected/'])      # INITFORM: forwarded packs direct-non-list-initialise
     nrel = rel.check(chk, db, ["_optional/optional.hpp", "_variant/variant.hpp", "_expected/unexpected.hpp"])
-    if nrel < 22:
+    if chk.rule_instances.get("REL", 0) < 22:      # operators found (an unmodelled body is UNKNOWN, not a lost subject)
         chk.analysis_broken("REL: only %d optional/variant operators modelled (floor 22)" % nrel)
     role_rule(chk, db)
     pair_rule(chk, db)
